@@ -92,6 +92,8 @@ def run_check(prop, fn, tier, meta, repo=None, preloaded=None, quiet=False):
     undecided = None
     try:
         fn(ctx)
+        if tier == "thorough" and (repo is None or os.path.abspath(repo) == os.path.abspath(REPO)) and not os.environ.get("VERIF_NO_SELFTEST"):
+            selftest(ctx, prop)
     except Undecided as u:
         undecided = str(u)
     except Exception:
@@ -186,3 +188,30 @@ def run_check(prop, fn, tier, meta, repo=None, preloaded=None, quiet=False):
             prop, tier, len(ctx.obs), len(discharged), len(listed), len(unlisted),
             "UNDECIDED" if undecided else "decided", wall))
     return code, ctx, out
+
+
+def selftest(ctx, prop):
+    """Thorough tier: the property's seeded controls (controls/patches) are applied to scratch copies of the analysed tree and the
+    quick check must report each with the expected rule; a control that no longer applies is skipped, a missed one makes the run
+    undecided (the checker lost reach) -- never a violation of the property."""
+    import subprocess
+    from concurrent.futures import ThreadPoolExecutor
+    sys.path.insert(0, os.path.join(VERIF, "controls"))
+    import run_controls
+    reg = json.load(open(os.path.join(VERIF, "controls", "controls.json")))
+    sel = {n: m for n, m in reg.items() if m["property"].split(",")[0] == prop}   # the control's primary property
+    env_guard = dict(os.environ, VERIF_NO_SELFTEST="1")
+    os.environ["VERIF_NO_SELFTEST"] = "1"
+    missed = []
+    try:
+        with ThreadPoolExecutor(max_workers=8) as ex:
+            for r in ex.map(lambda kv: run_controls.run_one(kv[0], dict(kv[1], property=prop), False, "quick"), sorted(sel.items())):
+                name, status = r[0], r[1]
+                ctx.count("controls-" + status.split(" ")[0])
+                if status.startswith("MISSED"):
+                    missed.append(name)
+    finally:
+        os.environ.pop("VERIF_NO_SELFTEST", None)
+    ctx.note("self-test: %d seeded controls for %s applied to scratch copies: %s" % (len(sel), prop, {k: v for k, v in ctx.counts.items() if k.startswith("controls-")}))
+    if missed:
+        raise Undecided("self-test: seeded controls no longer reported: %s" % missed)
